@@ -45,7 +45,7 @@ class DPTSceneNumber(DPTValue1ByteUnsigned):
             ):
                 raise ValueError("Value out of range")
             return DPTArray(knx_value)
-        except (ValueError, OverflowError) as err:
+        except (ValueError, TypeError, OverflowError) as err:
             raise ConversionError(
                 f"Could not serialize {cls.dpt_name()}", value=value
             ) from err
